@@ -343,7 +343,7 @@ def case_dens(ctx, pym, cs, grid, r, x, seed, nonpad=None):
             f'cols_eqb rows {zl([[c for c, _ in rw] for rw in rows])} && '
             f'vals_close {t9} rows {ql([[Fraction(v) for _, v in rw] for rw in rows])}%Q && '
             f'Zl_eqb (map (nwind g de) (zrange (nel g))) {zl([len(rw) for rw in rows])} && '
-            f'Ql_close {qlit(tol_for(Hs))}%Q (map (dens_Hs g de wt Qmax {npd}) (zrange (nel g))) {ql(qarr(Hs))}%Q && '
+            f'Ql_close {qlit(tol_for(Hs))}%Q (let mx := max_rowsum g de wt Qmax in map (dens_Hs_of g de wt mx {npd}) (zrange (nel g))) {ql(qarr(Hs))}%Q && '
             f'Ql_close {qlit(ty)}%Q (dens_response g de wt Qmax {npd} {ql(qarr(x))}%Q) {ql(qarr(y))}%Q && '
             f'Ql_close {qlit(td)}%Q (dens_sensitivity g de wt Qmax {npd} {ql(qarr(seed))}%Q) {ql(qarr(dx))}%Q && '
             f'Ql_close {qlit(ty)}%Q (apply (dens_triples g de wt Qmax {npd}) {dom.nel}%nat {ql(qarr(x))}%Q) {ql(qarr(y))}%Q)')
@@ -669,7 +669,16 @@ def run(ctx):
                         ('even', (4, 4, 4))):
         case_malformed(ctx, pym, cs, kind, shape)
 
-    failing, err = vlib.run_cases(ctx, 'c09', HEADER, cs.checks, chunk=60 if quick else 120, timeout=1500)
+    # balance the shards by (estimated) cost
+    chunk = 40 if quick else 100
+    nshard = max(1, -(-len(cs.checks) // chunk))
+    by_cost = sorted(range(len(cs.checks)), key=lambda i: -len(cs.checks[i]))
+    order = [i for sh in range(nshard) for i in by_cost[sh::nshard]]      # deal the cases round-robin: balanced shards
+    chunk = -(-len(order) // nshard)
+    cs.checks = [cs.checks[i] for i in order]
+    cs.labels = [cs.labels[i] for i in order]
+    cs.replay = [cs.replay[i] for i in order]
+    failing, err = vlib.run_cases(ctx, 'c09', HEADER, cs.checks, chunk=chunk, timeout=1500)
     ctx.obligation('correspondence:case files evaluated', 'correspondence', not err, err)
     if err:
         ctx.violation('correspondence', 'FilterConv/DensityFilter', 'case files compile', 'harness', dict(error=err[-3000:]),
